@@ -178,9 +178,18 @@ func VerifC08Keyed() {
 	ids := make([]float64, n)
 	vals := make([]float64, n)
 	nkinds := 1 + 2*vParam("IDKINDS", 1)
+	mixed := vParam("MIXED", 0) == 1 // members that are no objects at all
+	if mixed {
+		nkinds++
+	}
 	for i := range c {
 		idKind[i] = vChoice(nkinds)
 		ids[i], vals[i] = vF64(), vF64()
+		if mixed && idKind[i] == nkinds-1 {
+			idKind[i] = 99
+			c[i] = jsonNumber(vals[i])
+			continue
+		}
 		o := jsonObject{"v": jsonNumber(vals[i])}
 		switch idKind[i] {
 		case 0:
